@@ -20,7 +20,8 @@ EXPLANATION = (
     'Operator and Comparison tokens and has a right-hand and a left-hand insertion branch, each guarded by "neighbour exists and '
     'is not whitespace". R10.4: the serializer runs last and right-strips every line. R10.5: _stripws_default writes "" exactly '
     'when the previous child was whitespace or the token is first, else " "; _stripws_parenthesis removes whitespace after "(" and '
-    'before ")"; the trailing whitespace token of the statement is removed. Not decided: the normal forms themselves and their '
+    'before ")"; the trailing whitespace token of the statement is removed. R10.6: every token a layout filter inserts is created at the '
+    'insertion (no token object shared between positions, statements or calls -- the whitespace filters edit token.value in place). Not decided: the normal forms themselves and their '
     'fixed-point property (statements about output text).')
 
 KW = TT(('Keyword',))
